@@ -507,11 +507,13 @@ def b_native(B):
                         try:
                             r_a, r_c = a[ty(n)], c[ty(n)]
                             r_a2, r_c2 = a[ty(n), 3:9], c[ty(n), 3:9]
+                            r_a3, r_c3 = a.read(nsel=ty(n), sync=False), c.read(nsel=ty(n), sync=False)       # the method behind the brackets, called directly
                         except Exception as e:
                             bad.append(("numpy int", ty.__name__, n, repr(e)[:60]))
                             continue
-                        if np.shape(r_a) != np.shape(r_c) or not np.array_equal(r_a, r_c) or np.shape(r_a2) != np.shape(r_c2) or not np.array_equal(r_a2, r_c2):
-                            bad.append(("numpy int", ty.__name__, n, "bin", np.shape(r_a), "cbin", np.shape(r_c)))
+                        if np.shape(r_a) != np.shape(r_c) or not np.array_equal(r_a, r_c) or np.shape(r_a2) != np.shape(r_c2) or not np.array_equal(r_a2, r_c2) \
+                                or np.shape(r_a3) != np.shape(r_c3) or not np.array_equal(r_a3, r_c3):
+                            bad.append(("numpy int", ty.__name__, n, "bin", np.shape(r_a), "cbin", np.shape(r_c), "read()", np.shape(r_c3)))
                 for cs in (slice(None), slice(3, 40, 5), [0, 7, 384], slice(None, None, -1)):
                     if not np.array_equal(a[10:chunk + 10, cs], c[10:chunk + 10, cs]):
                         bad.append(("csel", repr(cs)))
@@ -542,6 +544,30 @@ def b_native(B):
                 shutil.rmtree(d, ignore_errors=True)
     r = replay_companion({}, "")
     B.case("companion_real_files", not r["failed"], detail=r)
+    # a float32 flat binary without metadata (the format the destriping writes), with a conversion factor, read several times through both files: the same values each time
+    d = tempfile.mkdtemp(prefix="c02_")
+    try:
+        ns_, nc_ = 2500, 7
+        Df = rng.integers(-2000, 2000, size=(ns_, nc_)).astype(np.float32)          # (whole numbers: mtscomp differences stay exact in single precision)
+        fb = os.path.join(d, "flat.bin")
+        Df.tofile(fb)
+        kw = dict(ns=ns_, nc=nc_, fs=1000, dtype=np.float32, s2v=0.5)
+        s_b = spikeglx.Reader(fb, **kw)
+        cbf = s_b.compress_file(keep_original=True)
+        s_c = spikeglx.Reader(cbf, **kw)
+        badf = []
+        for rep in range(3):
+            for sl in (slice(10, 40), slice(0, 5), slice(2400, 2500), slice(990, 1010)):
+                xb, xc = s_b[sl, :], s_c[sl, :]
+                if xb.shape != xc.shape or not np.array_equal(xb, xc) or not np.allclose(xb, Df[sl] * 0.5):
+                    badf.append((rep, sl.start, sl.stop))
+        s_b.close()
+        s_c.close()
+        B.case("float32_flat_binary_read_repeatedly", not badf, detail={"reads_that_differ (repetition, start, stop)": badf[:5]}, inputs={"kind": "float32_flat"})
+    except Exception as e:
+        B.case("float32_flat_binary_read_repeatedly", False, detail=repr(e)[:200], inputs={"kind": "float32_flat"})
+    finally:
+        shutil.rmtree(d, ignore_errors=True)
     # the same Reader object across in-place conversions: after compress_file / decompress_file(keep_original=False) the object is re-opened on the new file
     for ns in (chunk + 1, 2 * chunk + 7):
         d = tempfile.mkdtemp(prefix="c02_")
